@@ -40,6 +40,10 @@ enum Tk {
     CondJump,
     /// an unconditional jump to a constant target beyond the code: the path ends here, what follows is dead
     DeadJump,
+    /// bytes 0x5c / 0x5d (no assigned opcode in the supported instruction set) with the operands a load / store would
+    /// take: the path ends there like at INVALID; nothing about them is a storage access
+    Byte5c,
+    Byte5d,
     // real accesses
     Sload1,
     Sstore2,
@@ -72,6 +76,8 @@ fn alphabet() -> Vec<Tk> {
         Tk::EqCaller,
         Tk::CondJump,
         Tk::DeadJump,
+        Tk::Byte5c,
+        Tk::Byte5d,
         Tk::Sload1,
         Tk::Sstore2,
         Tk::Sstore,
@@ -88,7 +94,7 @@ fn arity(t: Tk) -> (usize, usize) {
         Tk::Pop | Tk::MstoreHi | Tk::Sstore2 => (1, 0),
         Tk::Dup1 => (1, 2),
         Tk::Log1 => (1, 0),
-        Tk::Return | Tk::DeadJump => (0, 0),
+        Tk::Return | Tk::DeadJump | Tk::Byte5c | Tk::Byte5d => (0, 0),
         Tk::StaticCallArg | Tk::DelegateCallArg | Tk::CallArg | Tk::CreateArg | Tk::HashAgain => (1, 1),
         Tk::RevertArg | Tk::CondJump => (1, 0),
         Tk::Balance | Tk::IsZero | Tk::EqCaller => (1, 1),
@@ -140,6 +146,8 @@ fn expand(seq: &[Tk]) -> Vec<u8> {
             // the value decides a conditional jump to the end of the code (an invalid target is fine in permissive mode)
             Tk::CondJump => t.extend([Tok::PushLen(0), o(op::JUMPI)]),
             Tk::DeadJump => t.extend([Tok::PushLen(0), o(op::JUMP)]),
+            Tk::Byte5c => t.extend([p(3), o(0x5c), o(op::POP)]),
+            Tk::Byte5d => t.extend([p(1), p(7), o(0x5d)]),
             Tk::Sload1 => t.extend([p(1), o(op::SLOAD)]),
             Tk::Sstore2 => t.extend([p(2), o(op::SSTORE)]),
             Tk::Sstore => t.push(o(op::SSTORE)),
@@ -399,11 +407,24 @@ impl Check for C05 {
                 }
             }
             // what the EVM executes ends at the first jump that cannot succeed; storage instructions behind it are dead
-            let live = seq.iter().position(|t| *t == Tk::DeadJump).map_or(seq.len(), |i| i + 1);
+            let live = seq.iter().position(|t| matches!(t, Tk::DeadJump | Tk::Byte5c | Tk::Byte5d)).map_or(seq.len(), |i| i + 1);
             let storage_free = !seq[..live].iter().any(|t| is_storage(*t));
             let dead_storage = seq[live..].iter().any(|t| is_storage(*t));
             let hashes = seq.iter().any(|t| matches!(t, Tk::MapKeyCaller7 | Tk::MapKeyCdl8 | Tk::ArrKey7Add | Tk::PushHash7));
-            if !hashes && !dead_storage {
+            let odd_bytes = seq.iter().any(|t| matches!(t, Tk::Byte5c | Tk::Byte5d));
+            if !hashes && !dead_storage && !odd_bytes {
+                return true;
+            }
+            // quick tier: the longest sequences use at most one of the ten "the hash is consumed by ..." tokens
+            let consumers = seq
+                .iter()
+                .filter(|t| matches!(t, Tk::StaticCallArg | Tk::DelegateCallArg | Tk::CallArg | Tk::CreateArg | Tk::RevertArg | Tk::HashAgain | Tk::Balance | Tk::IsZero | Tk::EqCaller | Tk::CondJump))
+                .count();
+            if !tier.thorough() && seq.len() >= max_len(tier) && consumers > 1 {
+                return true;
+            }
+            // programs without any look-alike hash are only interesting for their dead code: one token shorter
+            if !hashes && seq.len() >= max_len(tier) {
                 return true;
             }
             if dead_storage {
@@ -429,11 +450,11 @@ impl Check for C05 {
     }
     fn coverage(&self, tier: Tier, total: &Ctx) -> Map<String, Value> {
         let rule = format!(
-            "all stack-safe token sequences <= {} over 27 tokens that contain at least one look-alike hash computation or dead storage code: \
+            "all stack-safe token sequences <= {} over 29 tokens that contain at least one look-alike hash computation or dead storage code: \
              keccak(caller . 7), keccak(calldata . 8), keccak(7) + x, the literal keccak(7), a 160-bit mask, ADD, POP, DUP1, MSTORE, \
              LOG1, RETURN, CALLVALUE, the value passed as the argument data of STATICCALL / DELEGATECALL / CALL, as CREATE init code, as \
-             REVERT payload, hashed again, used as an address, zero-tested, compared, used as a branch condition, a JUMP beyond the code (everything behind it, storage instructions included, is dead), and the real accesses SLOAD(1), SSTORE(2), SSTORE / SLOAD with the key taken from the stack. \
-             Programs whose live part (up to the first jump that cannot succeed) executes no storage instruction must yield an empty layout. For mixed programs every layout index must lie in the over-approximated \
+             REVERT payload, hashed again, used as an address, zero-tested, compared, used as a branch condition, a JUMP beyond the code and the unassigned bytes 0x5c / 0x5d with load / store operands (everything behind them, storage instructions included, is dead), and the real accesses SLOAD(1), SSTORE(2), SSTORE / SLOAD with the key taken from the stack. \
+             (Quick tier: sequences of the maximal length contain at most one consumer token, and sequences without a look-alike hash are one token shorter.) Programs whose live part (up to the first jump that cannot succeed) executes no storage instruction must yield an empty layout. For mixed programs every layout index must lie in the over-approximated \
              closure of the constants found in KEY sub-trees of the storage nodes of the execution result (constants, their keccak \
              pre-images below 10000, hashes of constant data, one constant addition). non-trivial = every such program (each contains a \
              look-alike hash); distinct by program. Second family: all stack-safe sequences <= {} over the {} mask-and-shift tokens of C12 \
